@@ -37,7 +37,7 @@ def main():
         tests = 'pass' if 'repo-tests: pass' in out else 'FAIL'
         meta = dict(id=sid, breaks_property=prop, origin=origin, needs_to_manifest=needs, existing_tests_with_patch=tests,
                     ran='git -C /repo apply patch.diff; ./check <P> quick for P in %s; git -C /repo checkout -- .' % props,
-                    results=res, detected_by=[p for p, v in res.items() if v['exit'] == 1],
+                    results=res, detected_by=[p for p, v in res.items() if v['exit'] == 1 and v['violation_lines'] > 0],
                     confirmed='verify_seed.sh: patch applies, existing tests pass with it, demo fails with it and passes without it' if not sid.startswith('regress-') else 'the check that found the original defect')
         with open(os.path.join(d, 'meta.json'), 'w') as f:
             json.dump(meta, f, indent=1)
